@@ -184,7 +184,7 @@ Print Assumptions pass_is_strict.
 
 (* The deciding propagation is the selected mode's own (baud, offset) when the modes of a baud rate share their
    offset.  Without that guard the statement is FALSE of the code: the loop evaluates every mode of a baud rate on the
-   propagation of every offset of that baud rate (finding F15). *)
+   propagation of every offset of that baud rate (finding C13-mode-judged-on-sibling-offset). *)
 Theorem selected_own_offset_partial : forall margin P lib sp it m,
   (forall a b, In a lib -> In b lib -> m_baud a == m_baud b -> m_off a == m_off b) ->
   mode_loop margin P lib sp = Selected it m -> iter_eqb it (m_baud m, m_off m) = true.
